@@ -359,6 +359,9 @@ func (fd *Client) Query(ctx context.Context, input *dynamodb.QueryInput, opt ...
 	}
 
 	indexName := aws.ToString(input.IndexName)
+	if indexName != "" && !table.HasIndex(indexName) {
+		return nil, &smithy.GenericAPIError{Code: "ValidationException", Message: "The table does not have the specified index: " + indexName}
+	}
 
 	if input.ScanIndexForward == nil {
 		input.ScanIndexForward = aws.Bool(true)
@@ -397,6 +400,9 @@ func (fd *Client) Scan(ctx context.Context, input *dynamodb.ScanInput, opt ...fu
 	}
 
 	indexName := aws.ToString(input.IndexName)
+	if indexName != "" && !table.HasIndex(indexName) {
+		return nil, &smithy.GenericAPIError{Code: "ValidationException", Message: "The table does not have the specified index: " + indexName}
+	}
 
 	items, lastKey := table.SearchData(core.QueryInput{
 		Index:                     indexName,
